@@ -7,6 +7,7 @@ CONSTANTS
   Unwrapped = {}
   DepthRestore = "parent"
   ContextDropped = TRUE
+  CloseFailure = "logged"
 INIT Init
 NEXT Next
 INVARIANTS
